@@ -262,7 +262,7 @@ PROPS = {
         "gen": [],
         "thm_module": "NutsModel.Thm.C17",
         "namespace": "NutsModel.C17",
-        "theorems": ["sumFrom_eq", "sum_range_mul", "sum_range_blocks", "simdSum_eq", "split_partition", "region_index",
+        "theorems": ["sumFrom_eq", "sum_range_mul", "sum_range_blocks", "simdSum_eq", "split_partition", "region_index", "region_injective", "region_in_bounds",
                      "scalar_prods2_eq", "scalar_prods3_eq", "vector_dot_eq"],
         "harness": "C17",
         "level": "proof",
